@@ -157,6 +157,13 @@ struct TaskCtx {
 
 thread_local! {
     static CUR: RefCell<Option<TaskCtx>> = const { RefCell::new(None) };
+    /// while set, ordinary scheduling points of this task are passed without asking the
+    /// scheduler (used inside long bursts of identical calls; blocked points still yield)
+    static QUIET: std::cell::Cell<bool> = const { std::cell::Cell::new(false) };
+}
+
+pub fn set_quiet(on: bool) {
+    QUIET.with(|q| q.set(on));
 }
 
 fn site_hash(s: &str) -> u64 {
@@ -514,6 +521,9 @@ pub fn hook_no_unwind(site: &'static str) {
 }
 
 fn hook_impl(site: &'static str, may_crash: bool) {
+    if QUIET.with(|q| q.get()) {
+        return;
+    }
     let info = CUR.with(|c| {
         let mut b = c.borrow_mut();
         b.as_mut().map(|t| {
